@@ -29,11 +29,11 @@ def near_any_edge(cfg, x, ulps=4):
     """is the float x within a few ulps of an edge of the configuration?"""
     if math.isnan(x) or math.isinf(x):
         return False
-    for e in exact_edges(cfg):
-        f = float(e)
-        if abs(x - f) <= ulps * max(math.ulp(x), math.ulp(f)):
-            return True
-    return False
+    edges = [float(e) for e in exact_edges(cfg)]
+    # (measured on the scale of the whole configuration: the library computes x - low, (x - origin) / width, ... so
+    # a value next to an edge at 0 is as "near" as one next to an edge at 1)
+    tol = ulps * math.ulp(max([abs(x)] + [abs(f) for f in edges]))
+    return any(abs(x - f) <= tol for f in edges)
 
 
 def gen_config(rng):
@@ -215,7 +215,7 @@ def record_one(job):
             import numpy as np
 
             x = float(np.float32(x))
-            near = near_any_edge(cfg, x)
+            near = bool(near) or near_any_edge(cfg, x)
         cls, r = classify(cfg, x)
         w = rng.choice([1.0, 1.0, 2.0, 0.5])
         if abs(x) > 1e300:
